@@ -823,11 +823,126 @@ Proof.
     apply create_lookup. eapply ne_of_P; eassumption.
 Qed.
 
-Lemma pres_md_rest_none : forall h sz msgs, Pres (Step P) (md_rest h sz None msgs).
+Lemma step_md_rest : forall h sz names msgs s,
+  (negb (p_md_only (d_p s)) = true -> forall b, P (pfn s ++ [b])) ->
+  Step P s (fst (md_rest h sz names msgs s)).
 Proof.
-  intros h sz msgs s. unfold md_rest. rewrite bind_gp.
+  intros h sz names msgs s Hb. unfold md_rest. rewrite bind_gp.
   destruct (p_rcfg (d_p s)); [|apply r_refl; exact HR0]. rewrite bind_gp.
   destruct (negb (p_md_only (d_p s))).
-  - (* unreachable in the handler (md_only was just set) but harmless here only if the name is inside P:
-       treated below by the caller; this branch needs the children of the current name *)
-Abort.
+  - apply at_bind; [ok0 | | intros _; solve [pres]].
+    rewrite bind_set_step.
+    apply (r_trans _ HR0 s (s <| d_step := DS_RECEIVING_FILE_DATA |>)).
+    + apply (r_same _ HR0); reflexivity.
+    + apply step_init_vfs_handling. exact (Hb eq_refl).
+  - apply at_bind; [ok0 | apply pres_set_step; ok0 | intros _; solve [pres]].
+Qed.
+
+Lemma pres_handle_metadata_packet : forall h cl ck sz names msgs,
+  PktOk (Some (PMetadata h cl ck sz names msgs)) -> Pres (Step P) (handle_metadata_packet h cl ck sz names msgs).
+Proof.
+  intros h cl ck sz names msgs Hok s. destruct names as [[sn dn]|].
+  - destruct Hok as [Pdn Pb].
+    set (s3 := s <| d_p ::= (fun p => p <| p_cktype := ck |> <| p_closure := cl |> <| p_md_missing := false |>) |>
+                 <| d_p ::= (fun p => p <| p_file_name := dn |>) |>
+                 <| d_p ::= (fun p => p <| p_file_size := Some sz |>) |>).
+    change (handle_metadata_packet h cl ck sz (Some (sn, dn)) msgs s) with (md_rest h sz (Some (sn, dn)) msgs s3).
+    apply (r_trans _ HR0 s s3).
+    + intros _. split; [exact Pdn | reflexivity].
+    + apply step_md_rest. intros _ b. exact (Pb b).
+  - set (s3 := s <| d_p ::= (fun p => p <| p_cktype := ck |> <| p_closure := cl |> <| p_md_missing := false |>) |>
+                 <| d_p ::= (fun p => p <| p_md_only := true |> <| p_fin ::= (fun f => f <| f_deliv := DATA_COMPLETE |>) |>) |>
+                 <| d_p ::= (fun p => p <| p_file_size := Some sz |>) |>).
+    change (handle_metadata_packet h cl ck sz None msgs s) with (md_rest h sz None msgs s3).
+    apply (r_trans _ HR0 s s3).
+    + apply (r_same _ HR0); reflexivity.
+    + apply step_md_rest. intro X. discriminate X.
+Qed.
+
+Lemma pres_start_transaction : forall h cl ck sz names msgs,
+  PktOk (Some (PMetadata h cl ck sz names msgs)) -> Pres (Step P) (start_transaction h cl ck sz names msgs).
+Proof.
+  intros h cl ck sz names msgs Hok. unfold start_transaction.
+  pose proof (pres_handle_metadata_packet h cl ck sz names msgs Hok). pres.
+Qed.
+
+Lemma pres_idle_fsm : forall pkt, PktOk pkt -> Pres (Step P) (idle_fsm pkt).
+Proof.
+  intros pkt Hok. unfold idle_fsm.
+  destruct pkt as [[]|]; try solve [pres].
+  apply pres_start_transaction. exact Hok.
+Qed.
+
+Lemma pres_notice_of_completion : Pres (Step P) notice_of_completion.
+Proof.
+  intro s. rewrite notice_of_completion_run.
+  pose proof (pres_noc_tail (Step P) HR0) as T.
+  destruct (p_disp (d_p s) =? DISP_CANCELED); [|apply T].
+  destruct (p_rcfg (d_p s)) as [r|]; [|apply r_refl; exact HR0].
+  destruct (r_disposition r && (f_deliv (p_fin (d_p s)) =? DATA_INCOMPLETE)); [|apply T].
+  apply (r_trans _ HR0 s (noc_delete s)); [|apply T].
+  intros Hp. split; [exact Hp|]. intros q Hq. unfold fs_d, noc_delete. cbn.
+  apply delete_lookup. eapply ne_of_P; eassumption.
+Qed.
+
+Lemma pres_handle_transfer_completion : Pres (Step P) handle_transfer_completion.
+Proof. unfold handle_transfer_completion. pose proof pres_notice_of_completion. pres. Qed.
+
+Lemma pres_handle_waiting_for_missing_metadata : forall pkt, PktOk pkt ->
+  Pres (Step P) (handle_waiting_for_missing_metadata pkt).
+Proof.
+  intros pkt Hok. unfold handle_waiting_for_missing_metadata.
+  destruct pkt as [[]|]; try solve [pres].
+  pose proof (pres_handle_metadata_packet _ _ _ _ _ _ Hok). pres.
+Qed.
+
+Lemma pres_handle_positive_ack_procedures : forall again, Pres (Step P) again ->
+  Pres (Step P) (handle_positive_ack_procedures again).
+Proof. intros again Ha. unfold handle_positive_ack_procedures. pres. Qed.
+
+Lemma pres_handle_waiting_for_finished_ack : forall again pkt, Pres (Step P) again ->
+  Pres (Step P) (handle_waiting_for_finished_ack again pkt).
+Proof.
+  intros again pkt Ha. unfold handle_waiting_for_finished_ack.
+  pose proof (pres_handle_positive_ack_procedures again Ha). pres.
+Qed.
+
+Lemma pres_non_idle_fsm : forall fuel pkt, PktOk pkt -> Pres (Step P) (non_idle_fsm fuel pkt).
+Proof.
+  induction fuel as [|k IH]; intros pkt Hok.
+  - pose proof pres_handle_fd_pdu. pose proof pres_handle_transfer_completion.
+    pose proof (pres_handle_waiting_for_missing_metadata pkt Hok).
+    assert (Pres (Step P) (handle_waiting_for_finished_ack (raise E_FUEL) pkt))
+      by (apply pres_handle_waiting_for_finished_ack; pres).
+    cbn [non_idle_fsm]. pres.
+  - pose proof pres_handle_fd_pdu. pose proof pres_handle_transfer_completion.
+    pose proof (pres_handle_waiting_for_missing_metadata pkt Hok).
+    assert (Pres (Step P) (handle_waiting_for_finished_ack
+              (s <- get ;; when (d_state s =? ST_BUSY) (non_idle_fsm k None)) pkt)).
+    { apply pres_handle_waiting_for_finished_ack. pose proof (IH None I). pres. }
+    cbn [non_idle_fsm]. pres.
+Qed.
+
+Lemma pres_state_machine : forall pkt, PktOk pkt -> Pres (Step P) (state_machine pkt).
+Proof.
+  intros pkt Hok. unfold state_machine.
+  pose proof (pres_idle_fsm pkt Hok). pose proof (pres_non_idle_fsm 3 pkt Hok). pres.
+Qed.
+
+End Frame.
+
+(* C05: a call changes the filestore only at the paths of may_touch *)
+Lemma state_machine_frame : forall pkt s q,
+  ~ may_touch s pkt q -> lookup (fs_d (fst (Dest.state_machine pkt s))) q = lookup (fs_d s) q.
+Proof.
+  intros pkt s q Hq. destruct q as [|x q]; [reflexivity|].
+  set (P := fun y : path => y = [] \/ may_touch s pkt y).
+  assert (Hok : PktOk P pkt).
+  { unfold PktOk. destruct pkt as [[]|]; try exact I. destruct names as [[sn dn]|]; [|exact I].
+    split.
+    - right. right. left. reflexivity.
+    - intro b. right. right. right. exists b. reflexivity. }
+  assert (Hs : P (pfn s)) by (right; left; reflexivity).
+  destruct (pres_state_machine P (or_introl eq_refl) pkt Hok s Hs) as [_ F].
+  apply F. intros [E | E]; [discriminate E | exact (Hq E)].
+Qed.
